@@ -232,6 +232,19 @@ func Before(a, b Event) bool {
 		}
 		return c
 	}
+	// two pieces of deferred work of the same frame (a deferred call, and something inside a deferred literal): last
+	// registered runs first, whatever lies below the two defers
+	for i := 0; i < len(ca) && i < len(cb); i++ {
+		if ca[i] == cb[i] {
+			continue
+		}
+		_, da := ca[i].(*ssa.Defer)
+		_, db := cb[i].(*ssa.Defer)
+		if da && db {
+			return Dominates(cb[i], ca[i])
+		}
+		break
+	}
 	if len(ca) != len(cb) || len(ca) < 2 || ca[len(ca)-2] != cb[len(cb)-2] {
 		// only when the two do not sit in the same innermost frame
 		ta, tb := trim(ca), trim(cb)
